@@ -527,4 +527,62 @@ theorem universe_old7_wf : WF Gen.universe_old7 := by unfold WF; decide +kernel
 example : close [⟨true, [], []⟩, ⟨true, [0], []⟩, ⟨true, [], [1]⟩] [2] = [0, 1, 2] := by decide
 example : required [⟨true, [], []⟩, ⟨true, [0], []⟩, ⟨true, [], [1]⟩] [0, 1, 2] = [0, 2] := by decide
 
+
+/-! ## the order on groups is the subset order of the names: a partial order, not a total one -/
+
+theorem subsetB_iff (a b : List Nat) : subsetB a b = true ↔ ∀ x ∈ a, x ∈ b := by
+  simp [subsetB, List.all_eq_true]
+
+theorem le_refl (a : List Nat) : leB a a = true := by simp [leB, subsetB_iff]
+
+theorem le_trans (a b c : List Nat) (h1 : leB a b = true) (h2 : leB b c = true) : leB a c = true := by
+  simp only [leB, subsetB_iff] at *
+  exact fun x hx => h2 x (h1 x hx)
+
+/-- antisymmetry: two groups below each other have the same names (and, being sorted lists without
+repetition as `close` produces them, are the same list — `names_sorted`) -/
+theorem le_antisymm (a b : List Nat) (h1 : leB a b = true) (h2 : leB b a = true) : ∀ x, x ∈ a ↔ x ∈ b := by
+  simp only [leB, subsetB_iff] at *
+  exact fun x => ⟨h1 x, h2 x⟩
+
+theorem eq_iff (a b : List Nat) : eqB a b = true ↔ ∀ x, x ∈ a ↔ x ∈ b := by
+  simp only [eqB, Bool.and_eq_true, subsetB_iff]
+  exact ⟨fun ⟨h1, h2⟩ x => ⟨h1 x, h2 x⟩, fun h => ⟨fun x hx => (h x).mp hx, fun x hx => (h x).mpr hx⟩⟩
+
+theorem lt_iff (a b : List Nat) : ltB a b = true ↔ leB a b = true ∧ eqB a b = false := by
+  simp only [ltB, leB, eqB]
+  cases subsetB a b <;> cases subsetB b a <;> simp
+
+theorem gt_iff_lt_swap (a b : List Nat) : gtB a b = ltB b a := by simp [gtB, ltB]
+theorem ge_iff_le_swap (a b : List Nat) : geB a b = leB b a := by simp [geB, leB]
+
+theorem lt_irrefl (a : List Nat) : ltB a a = false := by simp [ltB]
+
+/-- `<` and `>` exclude each other and equality: at most one of the three holds … -/
+theorem lt_gt_eq_exclusive (a b : List Nat) :
+    ¬ (ltB a b = true ∧ gtB a b = true) ∧ ¬ (ltB a b = true ∧ eqB a b = true) ∧ ¬ (gtB a b = true ∧ eqB a b = true) := by
+  simp only [ltB, gtB, eqB]
+  cases subsetB a b <;> cases subsetB b a <;> simp
+
+/-- … and possibly none: the order is **not total**.  In the default universe {band} and {instrument}
+are closed groups neither of which is below the other, so `a > b` cannot be computed as `¬ (a ≤ b)`. -/
+theorem order_not_total :
+    let U := Gen.universe_default
+    ∃ a b, closeFast U a = a ∧ closeFast U b = b ∧ leB a b = false ∧ geB a b = false ∧ ltB a b = false ∧ gtB a b = false ∧ eqB a b = false :=
+  ⟨[0], [1], by decide +kernel, by decide +kernel, by decide, by decide, by decide, by decide, by decide⟩
+
+theorem disjoint_iff (a b : List Nat) : disjointB a b = true ↔ ∀ x ∈ a, x ∉ b := by
+  simp [disjointB, List.all_eq_true]
+
+theorem disjoint_symm (a b : List Nat) : disjointB a b = disjointB b a := by
+  have h : ∀ a b : List Nat, disjointB a b = true → disjointB b a = true := by
+    intro a b hab
+    rw [disjoint_iff] at *
+    exact fun x hx hxa => hab x hxa hx
+  cases h1 : disjointB a b <;> cases h2 : disjointB b a
+  · rfl
+  · exact absurd (h b a h2) (by simp [h1])
+  · exact absurd (h a b h1) (by simp [h2])
+  · rfl
+
 end C12
